@@ -99,7 +99,7 @@ def cases(rng, tier):
 			yield ('s', 'client', b'HTTP/1.1 200 OK\r\nContent-Encoding: ' + name_ + b'\r\nContent-Length: %d\r\n\r\n' % len(bd) + bd, ((),))
 			yield ('s', 'server', b'POST / HTTP/1.1\r\nHost: h\r\nContent-Encoding: ' + name_ + b'\r\nTransfer-Encoding: chunked\r\n\r\n%x\r\n' % len(bd) + bd + b'\r\n0\r\n\r\n', ((),))
 	# bracketed hosts of every sort in the target and in the Host field: address literals, IPvFuture with odd versions, look-alikes
-	for h in (b'[vx.y]', b'[v.addr]', b'[v1_0.a]', b'[vzz.1]', b'[vhost.example.com]', b'[vF.a]', b'[v1.fe:DC]', b'[V1.a]', b'[v\xb2.a]', b'[v1.]', b'[v.]', b'[v-1.a]', b'[v+1.a]', b'[v 1.a]', b'[v1a.b]',
+	for h in (b'[%00]', b'[::1%00]', b'[%5B]', b'[%3A%3A1]', b'[vx.y]', b'[v.addr]', b'[v1_0.a]', b'[vzz.1]', b'[vhost.example.com]', b'[vF.a]', b'[v1.fe:DC]', b'[V1.a]', b'[v\xb2.a]', b'[v1.]', b'[v.]', b'[v-1.a]', b'[v+1.a]', b'[v 1.a]', b'[v1a.b]',
 			b'[v0x1.a]', b'[::1]', b'[::g]', b'[1.2.3.4]', b'[]', b'[', b']', b'[::1%25eth0]', b'[' + b'1:' * 40 + b']', b'[v' + b'9' * 5000 + b'.a]'):
 		for t in (b'GET http://' + h + b'/ HTTP/1.1\r\nHost: h\r\n\r\n', b'CONNECT ' + h + b':443 HTTP/1.1\r\nHost: h\r\n\r\n', b'GET / HTTP/1.1\r\nHost: ' + h + b'\r\n\r\n',
 				b'GET //' + h + b'/x HTTP/1.1\r\nHost: h\r\n\r\n', b'GET http://u@' + h + b':81/ HTTP/1.0\r\n\r\n'):
